@@ -13,17 +13,26 @@ use std::sync::Arc;
 //-------------------------------------------------------------------------------------------------------------------
 // Types under test
 
-#[derive(ReactComponent, PartialEq, Debug)]
+/// Equality of the reactive values looks at the low two bits only: values can be equal and still distinguishable (like `0.0` and
+/// `-0.0`, or a type whose `PartialEq` ignores a field), so `set_if_neq` with an equal value must be seen to keep the stored one.
+pub fn veq(a: u8, b: u8) -> bool { a % 4 == b % 4 }
+
+#[derive(ReactComponent, Debug)]
 pub struct A(pub u8);
-#[derive(ReactComponent, PartialEq, Debug)]
+impl PartialEq for A { fn eq(&self, o: &Self) -> bool { veq(self.0, o.0) } }
+#[derive(ReactComponent, Debug)]
 pub struct B(pub u8);
-#[derive(ReactResource, PartialEq, Debug, Default)]
+impl PartialEq for B { fn eq(&self, o: &Self) -> bool { veq(self.0, o.0) } }
+#[derive(ReactResource, Debug, Default)]
 pub struct RR(pub u8);
-#[derive(ReactResource, PartialEq, Debug, Default)]
+impl PartialEq for RR { fn eq(&self, o: &Self) -> bool { veq(self.0, o.0) } }
+#[derive(ReactResource, Debug, Default)]
 pub struct RS(pub u8);
+impl PartialEq for RS { fn eq(&self, o: &Self) -> bool { veq(self.0, o.0) } }
 /// Never named by a system parameter of the harness, so it may be absent while systems run.
-#[derive(ReactResource, PartialEq, Debug, Default)]
+#[derive(ReactResource, Debug, Default)]
 pub struct RT(pub u8);
+impl PartialEq for RT { fn eq(&self, o: &Self) -> bool { veq(self.0, o.0) } }
 
 pub trait CompVal: ReactComponent + PartialEq { fn mk(v: u8) -> Self; fn v(&self) -> u8; }
 impl CompVal for A { fn mk(v: u8) -> Self { A(v) } fn v(&self) -> u8 { self.0 } }
@@ -932,6 +941,14 @@ pub fn exec_wop(world: &mut World, op: &WOp, u: u32)
             let popped = world.resource_mut::<H>().sigs[*k as usize].pop();
             drop(popped);
         }
+        WOp::SigDropUnwind(k) =>
+        {
+            let popped = world.resource_mut::<H>().sigs[*k as usize].pop();
+            if let Some(sig) = popped
+            {
+                let _ = catch_unwind(AssertUnwindSafe(move || { let _guard = sig; panic!("unwinding with a signal clone on the stack"); }));
+            }
+        }
         WOp::SigMoveInto(k, s) =>
         {
             let e = slot(world, *s);
@@ -950,6 +967,7 @@ pub fn exec_wop(world: &mut World, op: &WOp, u: u32)
         WOp::Syscall(kind, key, input) => crate::sysfam::world_syscall(world, *kind, *key, *input, u),
         WOp::SpawnSys(k, key) => crate::sysfam::spawn_sys(world, *k, *key),
         WOp::KillSys(k) => crate::sysfam::kill_sys(world, *k),
+        WOp::ClearSys(k) => crate::sysfam::clear_sys(world, *k),
         WOp::RevokeNamed(n, key) => crate::sysfam::revoke_named(world, *n, *key),
         WOp::SpawnSysRc(k, key) => crate::sysfam::spawn_sys_rc(world, *k, *key),
         WOp::DropSysRc(k) => { let s = world.resource_mut::<H>().sys_sigs[*k as usize % 4].take(); drop(s); }
